@@ -29,8 +29,8 @@ target; those get their own bucket.
 
 Dropped / not demanded (statement silent): what happens to a recorded *directory* whose on-disk
 entry is a symlink (pkgcore unlinks it; Portage keeps it) and to recorded non-directories that are
-directories on disk; when such a recorded alias is an ancestor of another recorded entry the
-must-go claim is only checked on the lexical path.  Names ending in `#new` are not generated (that
+directories on disk; when such a recorded alias is followed on the way to another recorded entry
+(ancestor or link of a chain) the must-go claim is only checked on the lexical path.  Names ending in `#new` are not generated (that
 window belongs to C18/C19).  Relative symlink targets never contain `..`; cross-directory links
 are absolute (root-relative in the chroot, <offset>-prefixed in offset mode) so no generated path
 can resolve into the host's real root.
@@ -61,10 +61,12 @@ LEVEL_NOTE = (
 )
 RULE = (
     "case = (mode, chroot?, root tree, recorded contents, new image) drawn by hypothesis from a fixed vocabulary of "
-    "directories (incl. /usr /etc /var /lib64 ...), directory aliases (lib->lib64, opt/lnk->app, absolute ones), leaf "
+    "directories (incl. /usr /etc /var /lib64 ..., up to three levels below an aliased directory), directory aliases "
+    "(lib->lib64, opt/lnk->app, absolute ones, chains lib->/usr/lib->lib64, a symlink inside an aliased directory), leaf "
     "names; non-trivial = at least one recorded entry exists on disk AND the case has a recorded symlink whose target "
     "exists, or a recorded directory kept alive by unrecorded content, or a recorded base directory, or an entry reached "
-    "through a symlinked directory, or (replace) an entry shared by old and new, or a type mismatch; distinct = "
+    "through a symlinked directory, or (replace) an entry shared by old and new (classes: same spelling / respelled "
+    "through an alias at depth 1 / depth 2+ / multi-hop), or a type mismatch; distinct = "
     "canonical JSON of the case"
 )
 ASSUMPTIONS = [
@@ -73,7 +75,7 @@ ASSUMPTIONS = [
     "runs as root; chroot(2) available (used for the offset '/' half)",
     "behaviour for a recorded directory that is a symlink on disk is not judged (statement silent)",
 ]
-BUDGET = {"quick": 30, "thorough": 840}
+BUDGET = {"quick": 25, "thorough": 840}
 
 TRIGGERS = ["merge", "unmerge", "basesys"]
 
@@ -81,13 +83,18 @@ BASE = ("usr", "usr/lib", "usr/lib64", "usr/lib32", "usr/bin", "usr/sbin", "bin"
         "etc", "var", "home", "root")
 
 DIRS = ["usr", "usr/lib64", "usr/bin", "usr/share", "usr/share/app", "etc", "etc/app", "var", "var/lib", "var/lib/app",
-        "opt", "opt/app", "opt/app/sub", "opt/b", "srv", "srv/data", "lib64", "home"]
-# (alias path, target as written in the symlink, physical directory it denotes)
+        "opt", "opt/app", "opt/app/sub", "opt/b", "srv", "srv/data", "lib64", "home",
+        "usr/lib64/foo", "usr/lib64/foo/plugins", "lib64/mod", "srv/data/sub", "srv/data/sub/deep", "usr/share/app/x",
+        "etc/app/conf.d", "opt/b/deep"]
+# (alias path, target as written in the symlink, physical directory it denotes, alias it chains through or None)
 ALIASES = [
-    ("usr/lib", "lib64", "usr/lib64"), ("usr/lib", "/usr/lib64", "usr/lib64"), ("lib", "lib64", "lib64"),
-    ("lib", "/usr/lib64", "usr/lib64"), ("opt/lnk", "app", "opt/app"), ("opt/lnk", "/opt/b", "opt/b"),
-    ("srv/l", "data", "srv/data"), ("var/l", "/opt/app/sub", "opt/app/sub"), ("usr/share/lnk", "app", "usr/share/app"),
-    ("etc/alt", "app", "etc/app"),
+    ("usr/lib", "lib64", "usr/lib64", None), ("usr/lib", "/usr/lib64", "usr/lib64", None), ("lib", "lib64", "lib64", None),
+    ("lib", "/usr/lib64", "usr/lib64", None), ("opt/lnk", "app", "opt/app", None), ("opt/lnk", "/opt/b", "opt/b", None),
+    ("srv/l", "data", "srv/data", None), ("var/l", "/opt/app/sub", "opt/app/sub", None),
+    ("usr/share/lnk", "app", "usr/share/app", None), ("etc/alt", "app", "etc/app", None),
+    # chains (a symlink whose target is a symlink) and a symlink inside a directory that may itself be aliased
+    ("lib", "/usr/lib", "usr/lib64", "usr/lib"), ("srv/chain", "l", "srv/data", "srv/l"),
+    ("opt/app/cur", "sub", "opt/app/sub", None), ("usr/lib64/foo/cur", "plugins", "usr/lib64/foo/plugins", None),
 ]
 NAMES = ["f", "g", "conf", "x y", "lib.so", "ü", ".keep", "zz"]
 
@@ -106,9 +113,18 @@ def cases(draw):
     chroot = draw(st.booleans())
     dirs = set(draw(st.lists(st.sampled_from(DIRS), min_size=1, max_size=5, unique=True)))
     aliases = {}
-    for a, tgt, phys in draw(st.lists(st.sampled_from(ALIASES), max_size=2, unique_by=lambda x: x[0])):
+    for a, tgt, phys, via in draw(st.lists(st.sampled_from(ALIASES), max_size=2, unique_by=lambda x: x[0])):
         aliases[a] = (tgt, phys)
         dirs.add(phys)
+        if via is not None and via not in aliases:
+            a2, tgt2, phys2, _v = next(x for x in ALIASES if x[0] == via)
+            aliases[a2] = (tgt2, phys2)
+            dirs.add(phys2)
+    # packages put things into subdirectories of an aliased directory as well, not only directly into it
+    for a, (_t, phys) in sorted(aliases.items()):
+        nested = [x for x in DIRS if x.startswith(phys + "/")]
+        if nested and draw(st.integers(0, 9)) < 6:
+            dirs.add(draw(st.sampled_from(nested)))
     for d in list(dirs):
         dirs.update(_parents(d))
     for a in aliases:
@@ -123,19 +139,35 @@ def cases(draw):
     # a directory exists when anything below it exists
     old_dirs, new_dirs = set(), set()
 
-    def lexical(d, use_alias):
-        """path of physical dir d as a package would name it (maybe through an alias)"""
-        if use_alias:
-            for a, (_t, phys) in sorted(aliases.items()):
-                if d == phys or d.startswith(phys + "/"):
-                    return a + d[len(phys):]
-        return d
+    def lexical(d, pick):
+        """path of physical dir d as a package would name it: pick == 0 the real spelling, else through
+        one of the aliases that lead to it (and, when the result again lies under an aliased directory,
+        possibly through a second one: two symlinks in one path)"""
+        path = d
+        seen = set()
+        for rnd in range(2):
+            if not pick:
+                break
+            cand = [(a, phys) for a, (_t, phys) in sorted(aliases.items())
+                    if a not in seen and (path == phys or path.startswith(phys + "/"))]
+            if not cand:
+                break
+            a, phys = cand[(pick - 1) % len(cand)]
+            seen.add(a)
+            path = a + path[len(phys):]
+            pick = pick // 2
+        return path
+
+    aliased_dirs = [d for d in dirs if any(d == ph or d.startswith(ph + "/") for _t, ph in aliases.values())]
 
     nleaves = draw(st.integers(1, 7))
     used = set()
     leaves = []
     for i in range(nleaves):
-        d = draw(st.sampled_from(dirs))
+        if aliased_dirs and draw(st.booleans()):
+            d = draw(st.sampled_from(aliased_dirs))
+        else:
+            d = draw(st.sampled_from(dirs))
         name = draw(st.sampled_from(NAMES))
         if (d, name) in used:
             continue
@@ -154,7 +186,7 @@ def cases(draw):
                 ok = rk
         if rk == "dir" or ok == "dir":
             nk = "none"  # a non-directory merged over a directory is a documented refusal (C18)
-        leaves.append((d, name, rk, ok, nk, draw(st.booleans()), draw(st.booleans()), draw(st.booleans()), i))
+        leaves.append((d, name, rk, ok, nk, draw(st.integers(0, 4)), draw(st.integers(0, 4)), draw(st.booleans()), i))
 
     for d, name, rk, ok, nk, ali_old, ali_new, same, i in leaves:
         p = f"{d}/{name}"
@@ -208,7 +240,7 @@ def cases(draw):
     # extra recorded directories (empty or not), unrecorded content
     for d in dirs:
         if draw(st.integers(0, 9)) < 6:
-            old_dirs.add(lexical(d, draw(st.booleans())))
+            old_dirs.add(lexical(d, draw(st.integers(0, 3))))
         if on_disk[d] and draw(st.integers(0, 9)) < 3:
             root.append({"path": d + "/unrecorded", "type": "file", "data": "u"})
     rootdirs = [{"path": d, "type": "dir"} for d in dirs if on_disk[d]]
@@ -246,12 +278,40 @@ def _mat(target, absprefix):
     return absprefix + target if target.startswith("/") else target
 
 
+def alias_shape(t, path):
+    """(symlinks followed while resolving the parent components of `path`, number of components below
+    the first symlinked component) -- (0, 0) when no parent component is a symlink"""
+    comps = path.split("/")
+    hops = below = 0
+    for i in range(1, len(comps)):
+        q = t.resolve("/".join(comps[:i]))
+        n = 0
+        while q is not None and t.snap.get(q, {}).get("type") == "sym" and n < 8:
+            n += 1
+            tgt = t.snap[q]["target"]
+            if tgt.startswith("/"):
+                rel = t._abs_to_rel(tgt)
+                cand = None if rel is None else "/".join(rel)
+            else:
+                base = q.rsplit("/", 1)[0] if "/" in q else ""
+                cand = (base + "/" if base else "") + tgt
+            q = None if cand is None else t.resolve(cand)
+        if n:
+            if not hops:
+                below = len(comps) - i
+            hops += n
+    return hops, below
+
+
 def classify(case, t0):
     """classes from the case and the initial snapshot tree (harness side only)"""
     cl = [case["mode"], "chroot" if case["chroot"] else "offset"]
     s0 = t0.snap
     live_listed = 0
     newphys = {t0.resolve(e["path"]) for e in case["new"]}
+    newby = {}
+    for e in case["new"]:
+        newby.setdefault(t0.resolve(e["path"]), e)
     for e in case["old"]:
         q = t0.resolve(e["path"])
         if q is None or (q and q not in s0):
@@ -261,6 +321,14 @@ def classify(case, t0):
         ent = s0.get(q if q else ".")
         if q != e["path"]:
             cl.append("via_symlinked_dir")
+            hops, below = alias_shape(t0, e["path"])
+            cl.append("via_alias_depth1" if below <= 1 else "via_alias_depth2plus")
+            if hops > 1:
+                cl.append("via_alias_multi_hop")
+        if e["type"] != "dir" and q in newby and newby[q]["type"] != "dir" and newby[q]["path"] != e["path"]:
+            cl.append("shared_respelled")
+            deep = max(alias_shape(t0, e["path"])[1], alias_shape(t0, newby[q]["path"])[1])
+            cl.append("shared_respelled_depth1" if deep <= 1 else "shared_respelled_depth2plus")
         if e["path"] in BASE:
             cl.append("base_dir_listed")
             if not t0.children(q) and ent["type"] == "dir":
@@ -283,7 +351,7 @@ def classify(case, t0):
             cl.append("shared_old_new")
             if e["type"] != "dir":
                 cl.append("shared_nondir")
-    interesting = {"via_symlinked_dir", "base_dir_listed", "listed_symlink_target_exists", "listed_dir_nonempty",
+    interesting = {"via_symlinked_dir", "shared_respelled", "base_dir_listed", "listed_symlink_target_exists", "listed_dir_nonempty",
                    "shared_nondir", "type_mismatch"}
     cl = sorted(set(cl))
     return cl, bool(live_listed) and bool(interesting & set(cl))
@@ -387,6 +455,11 @@ def oracle_unmerge(ctx, case, sa, sb, absprefix):
             ctx.violation(f"base-dir-removed:{where}", case, f"protected {bdir!r}: {_brief(sa[bdir])} -> {_brief(sb.get(bdir))}")
 
     # must-go
+    recorded_links = set()
+    for o2 in old:
+        q2 = ta.resolve(o2["path"])
+        if q2 is not None and sa.get(q2, {}).get("type") == "sym":
+            recorded_links.add(q2)
     must_go = set()
     simple = True
     for e in old:
@@ -398,12 +471,11 @@ def oracle_unmerge(ctx, case, sa, sb, absprefix):
             simple = False
         if e["type"] == "dir" or e["path"] in BASE or ent is None or ent["type"] == "dir" or q in physk:
             continue
-        ambiguous = False
-        for o2 in old:
-            if e["path"].startswith(o2["path"] + "/"):
-                q2 = ta.resolve(o2["path"])
-                if q2 is not None and sa.get(q2, {}).get("type") == "sym":
-                    ambiguous = True
+        # a recorded entry that is a symlink on disk and lies on the way to this one (lexical ancestor
+        # or a link of a chain) may be unlinked first; then only the lexical path is judged
+        followed = []
+        ta.resolve(e["path"], trace=followed)
+        ambiguous = bool(set(followed) & recorded_links)
         gone = (not tb.lexists(e["path"])) if ambiguous else (q not in sb)
         if gone:
             must_go.add(q)
